@@ -815,7 +815,7 @@ def split_fact(expr, pol: bool, out: List[Tuple[ast.expr, bool]]):
         out.append((expr, pol))
 
 
-_DUAL_OPS = {ast.NotIn: ast.In, ast.In: ast.NotIn, ast.NotEq: ast.Eq, ast.Eq: ast.NotEq, ast.IsNot: ast.Is, ast.Is: ast.IsNot}
+_DUAL_OPS = {ast.NotIn: ast.In, ast.In: ast.NotIn, ast.NotEq: ast.Eq, ast.Eq: ast.NotEq, ast.IsNot: ast.Is, ast.Is: ast.IsNot, ast.Lt: ast.GtE, ast.GtE: ast.Lt, ast.Gt: ast.LtE, ast.LtE: ast.Gt}
 
 
 def _dual_facts(expr, pol):
